@@ -199,6 +199,9 @@ class SchemaField:
                 raise ValueError("negative value")
             if no_nonfinite and not isfinite(float(v)):
                 raise ValueError("not isfinite number")
+            lexical = r"-?[0-9]+" if num_type is int else r"-?([0-9]+\.?[0-9]*|\.[0-9]+)"
+            if not re.fullmatch(lexical, value, re.ASCII):
+                raise ValueError("not a FIX number: sign, ASCII digits, decimal point only")
             if num_range and not (v >= num_range[0] and v <= num_range[1]):
                 raise ValueError(f"out of range {num_range}")
             # all good
